@@ -34,7 +34,11 @@ type Common struct {
 	// KeySource selects where the key shares come from (drivers that deal fresh keys):
 	// "" / "dealer" trusted dealer, "gennaro" the real Gennaro DKG (see Material).
 	KeySource string
-	Message   []byte
+	// API selects how the protocol is executed: "" / "rounds" round by round through drive.Pass,
+	// "runner" through the package's networked runner (NewRunner + network.Router over an
+	// in-memory transport, see RunRunners); drivers without a runner ignore it.
+	API     string
+	Message []byte
 }
 
 // Engine is the state of one run.
@@ -67,6 +71,9 @@ func (e *Engine) Alive(id sharing.ID) bool {
 	v, ok := e.Tr.Verdicts[id]
 	return e.made[id] && (!ok || v.Class == "ok")
 }
+
+// MarkMade marks a party as constructed (for drivers that construct inside a runner).
+func (e *Engine) MarkMade(id sharing.ID) { e.made[id] = true }
 
 // Construct runs the constructor step of every party (round 0, tape mark "new").
 func (e *Engine) Construct(f func(id sharing.ID) error) {
